@@ -547,10 +547,13 @@ def run_case(c):
 
 
 def replay(case):
+    if isinstance(case, dict) and case.get('kind') == 'scales':
+        from . import C11_scales
+        return C11_scales.replay(case)
     return run_case(case)['viol']
 
 
-def run(ctx):
+def _run_main(ctx):
     from mc.core import run_lattice, stable_hash, HarnessError
     cs = cases(ctx.tier, ctx.seed)
     ncfg = len(configs(ctx.tier, ctx.seed, 0))
@@ -592,3 +595,10 @@ def run(ctx):
              .format(n=total, adm=n_adm, **agg))
     if n_adm < 0.7 * total:            # vacuity guard on configurations
         raise HarnessError(f'vacuity guard: only {n_adm}/{total} configurations admitted (< 70%); infrastructure problem, no verdict')
+
+
+def run(ctx):
+    _run_main(ctx)
+    # scale-argument leg (separate small lattice, see mc/props/C11_scales.py)
+    from . import C11_scales
+    C11_scales.run(ctx)
